@@ -139,6 +139,6 @@ Example C13_ex_clen : In (Start ROk (Some 12)) (trace (Cfg false 250 100)
   /\ total_sent (trace (Cfg false 250 100)
      (Req false WNoDoc None [] false SOk SOk (UReturn RPlain) (SerOk (BSized [4; 4; 4])) (ESerOk [5]) None false)) = 12.
 Proof. vm_compute. auto. Qed.
-Example C13_ex_wsdl : trace ex_cfg (Req true (WBuild (Some 5599)) None [] false SOk SOk URaise SerExn (ESerExn OtherExn) None true)
+Example C13_ex_wsdl : trace ex_cfg (Req true (WBuild (Some 5599)) None [] false SOk SOk (URaise FOther) SerExn (ESerExn OtherExn) None true)
   = [Start RWsdl200 (Some 5599); Chunk 5599; CtxClose].
 Proof. reflexivity. Qed.
